@@ -379,6 +379,20 @@ def _r5(ctx, rep, vo, cfg):
     rep.check(src.get("reset_elapsed_seconds") == "runner_context.reset_elapsed_seconds"
               and src.get("placed_elapsed_seconds") == "runner_context.placed_elapsed_seconds", "R5",
               key(vo, None, "cool-downs read the runner context's own clocks"), vo, None, str(src))
+    # ... and those clocks are stamped with the time of the placement / the reset itself (the framework clock at
+    # that moment), not with a time carried in from elsewhere (an order's creation time lies arbitrarily far back)
+    rc = ctx.prog.cls("RunnerContext")
+    stamps = {"place": "self.datetime_last_placed", "reset": "self.datetime_last_reset"}
+    for mn_, tgt_ in stamps.items():
+        m_ = rc.methods.get(mn_)
+        vals = [utext(s_.value) for s_ in walk_nodes(m_.node.body, ast.Assign) if utext(s_.targets[0]) == tgt_] if m_ else []
+        rep.check(vals == ["datetime.datetime.utcnow()"], "R5",
+                  key(m_, None, "%s is stamped with the current framework time" % tgt_.split(".")[1]), m_, None, str(vals))
+    for pn_, tgt_ in (("placed_elapsed_seconds", "self.datetime_last_placed"), ("reset_elapsed_seconds", "self.datetime_last_reset")):
+        m_ = rc.methods.get(pn_)
+        txt_ = utext(m_.node) if m_ else ""
+        rep.check("datetime.datetime.utcnow() - %s" % tgt_ in txt_, "R5",
+                  key(m_, None, "%s is measured from that stamp to now" % pn_), m_)
 
 
 def _eval_atom(e, a, fams):
